@@ -176,12 +176,12 @@ pub fn cases(prop: &str, tier: Tier, seed: u64) -> Vec<CaseDesc> {
             for b in &bases {
                 for (ver, mode) in [(4, "f"), (5, "f"), (4, "s"), (5, "s"), (5, "z")] {
                     let spec = format!("dwarf:{}:{}:{}", ver, mode, b);
-                    let scn = match i % 3 { 0 => "rt:emit;cfg=27", 1 => "rt:emit,gc;cfg=27", _ => "rt:emit,ins;cfg=27" };
+                    let scn = match i % 4 { 0 => "rt:emit;cfg=27", 1 => "rt:emit,gc;cfg=27", 2 => "rt:emit,ins;cfg=27", _ => "rt:emit,addfn;cfg=27" };
                     i += 1;
                     out.push(CaseDesc { spec: spec.clone(), scenario: scn.to_string() });
                     if b.starts_with("leb:") {
                         // census: every scenario on every boundary module
-                        for s in ["rt:emit;cfg=27", "rt:emit,gc;cfg=27", "rt:emit,ins;cfg=27"] {
+                        for s in ["rt:emit;cfg=27", "rt:emit,gc;cfg=27", "rt:emit,ins;cfg=27", "rt:emit,addfn;cfg=27"] {
                             if s != scn {
                                 out.push(CaseDesc { spec: spec.clone(), scenario: s.to_string() });
                             }
@@ -194,12 +194,15 @@ pub fn cases(prop: &str, tier: Tier, seed: u64) -> Vec<CaseDesc> {
             // cfg 90 = defaults + preserve_code_transform
             out.extend(with_scenario(crate::census::leb_specs(!q), "rt:emit,gc,probe;cfg=90"));
             out.extend(with_scenario(crate::census::leb_specs(false), "rt:emit,probe,ins;cfg=90"));
+            out.extend(with_scenario(crate::census::leb_specs(false), "rt:emit,probe,addfn;cfg=90"));
             out.extend(with_scenario(disk_corpus(false), "rt:emit,gc,probe;cfg=90"));
             for (p, nq, nt) in [("full", 1500, 60_000), ("gcgraph", 800, 30_000), ("tiny", 500, 20_000)] {
                 let specs = g(p, nq, nt);
                 for (i, s) in specs.into_iter().enumerate() {
-                    let scn = if i % 2 == 0 { "rt:emit,gc,probe;cfg=90" } else { "rt:emit,probe,ins;cfg=90" };
-                    out.push(CaseDesc { spec: s, scenario: scn.to_string() });
+                    // every fifth case: ids come from an on_instr_loc callback (bit 128) instead of being the offsets
+                    let cfgm = if i % 5 == 4 { 90 | 128 } else { 90 };
+                    let scn = match i % 3 { 0 => format!("rt:emit,gc,probe;cfg={}", cfgm), 1 => format!("rt:emit,probe,ins;cfg={}", cfgm), _ => format!("rt:emit,probe,addfn;cfg={}", cfgm) };
+                    out.push(CaseDesc { spec: s, scenario: scn });
                 }
             }
         }
@@ -254,6 +257,13 @@ pub fn cases(prop: &str, tier: Tier, seed: u64) -> Vec<CaseDesc> {
                 for (i, s) in specs.into_iter().enumerate() {
                     out.push(CaseDesc { spec: s, scenario: format!("rt:emit,emit2,fix,shift,reedit;shift={}", 1 + (i % 7)) });
                 }
+            }
+            // with DWARF generation on: the rewritten debug sections are walrus's own output too
+            let mut dw: Vec<String> = crate::census::leb_specs(false);
+            dw.extend(g("tiny", 30, 400));
+            for (i, b) in dw.iter().enumerate() {
+                let spec = format!("dwarf:{}:{}:{}", 4 + (i % 2), ["f", "s", "z"][i % 3], b);
+                out.push(CaseDesc { spec, scenario: "rt:emit,emit2,fix;cfg=27".to_string() });
             }
         }
         "C12" => {
